@@ -179,7 +179,8 @@ fn run_case(dir: &Path, c: &Case) -> Result<(), (String, String)> {
             } else if recv.join("f.bin").exists() {
                 return Err(("refused-upload-created-file".into(), format!("{}: read-only server stored an upload", what)));
             }
-            if !err.contains("rror") {
+            // "reports the error": something must be said on stderr (the wording is not prescribed)
+            if err.trim().is_empty() {
                 return Err(("error-not-reported".into(), format!("{}: the server refused the request but tftpc's stderr does not report an error: {:?}", what, err)));
             }
             return Ok(());
